@@ -34,6 +34,13 @@ static void TProbe_Del(var self) { struct TProbe* p = self;
   if (p->canary == 0x7470726f6265LL && !pthread_equal(p->owner, main_thread)) atomic_fetch_sub(&tprobe_child_live, 1);
   p->canary = 0; atomic_fetch_sub(&tprobe_live, 1); }
 var TProbe = Cello(TProbe, Instance(New, TProbe_New, TProbe_Del));
+/* a result a child thread roots and leaves to its joiner: roots outlive the collector that registered them */
+struct RProbe { int64_t val; int64_t canary; };
+static atomic_long rprobe_fin[MAXT];
+static void RProbe_New(var self, var args) { struct RProbe* p = self; p->val = c_int(get(args, $I(0))); p->canary = 0x7270726f6265LL; }
+static void RProbe_Del(var self) { struct RProbe* p = self; if (p->val >= 7000 && p->val < 7000 + MAXT) atomic_fetch_add(&rprobe_fin[p->val - 7000], 1); p->canary = 0; }
+var RProbe = Cello(RProbe, Instance(New, RProbe_New, RProbe_Del));
+static var result_root[MAXT];
 
 struct Res { uint64_t digest; long cs_in[64], cs_out[64]; int ncs; long tryfail; long ended; int exc_seen; int64_t cell; var own[2]; long withbad; };
 static struct Res res_thr[MAXT], res_alone[MAXT];
@@ -135,6 +142,7 @@ static var thread_main(var args) {
      know it - the call must leave it alone (no finaliser on this thread, the parent still uses the object) */
   { volatile int dummy = 0; try { del(get(current(Thread), $S("handoff"))); } catch (e) { dummy = 1; } (void)dummy; }
   for (int i = 0; i < 40; i++) { var g = new(TProbe, $I(SLOW_MARK)); (void)g; }      /* left to the thread's teardown */
+  result_root[idx] = new_root(RProbe, $I(7000 + idx));           /* published by join; the joiner releases it */
   res_thr[idx].ended = atomic_fetch_add(&order_ticket, 1);
   atomic_store(&fn_done[idx], 1);
   return NULL;
@@ -220,19 +228,23 @@ int main(int argc, char** argv) {
         } else call(th[i], a_idx[i], a_seed[i], a_rounds);
       }
       atomic_store(&args_gate, 1);
-      long joined[MAXT]; int64_t seen[MAXT]; long liveatjoin[MAXT];
+      long joined[MAXT]; int64_t seen[MAXT]; long liveatjoin[MAXT]; long rootres[MAXT];
+      for (int i = 0; i < MAXT; i++) { atomic_store(&rprobe_fin[i], 0); rootres[i] = 0; }
       for (int i = 0; i < k; i++) {
         /* every second thread is joined only after its function has returned, while its teardown is still going on:
            join must wait for the whole thread, not just for its function */
         if (i % 2 == 0) { for (int w = 0; w < 200000 && !atomic_load(&fn_done[i]); w++) sched_yield(); usleep(1500); }
         join(th[i]); liveatjoin[i] = atomic_load(&live_by[i]);
+        { struct RProbe* rp = result_root[i]; rootres[i] = (rp && atomic_load(&rprobe_fin[i]) == 0 && rp->canary == 0x7270726f6265LL && rp->val == 7000 + i) ? 1 : 0;
+          /* (the collector that knew it is gone: del_root here would look it up in the joiner's collector and do nothing; it is released as the raw object it now is) */
+          if (rootres[i]) { del_raw(rp); if (atomic_load(&rprobe_fin[i]) != 1) rootres[i] = -1; } result_root[i] = NULL; }
         joined[i] = atomic_fetch_add(&order_ticket, 1); seen[i] = cells[i];
       }
       long total_cs = 0;
       for (int i = 0; i < k; i++) {
         ev_begin("thread"); ev_int("t", i); ev_limbs("digest", res_thr[i].digest); ev_limbs("alone", res_alone[i].digest);
         ev_int("ended", res_thr[i].ended); ev_int("joined", joined[i]); ev_limbs("cell", (uint64_t)res_thr[i].cell); ev_limbs("seen", (uint64_t)seen[i]);
-        ev_int("liveatjoin", liveatjoin[i]); ev_int("handoff", atomic_load(&handoff_ok[i])); ev_int("ncs", res_thr[i].ncs); ev_int("withbad", res_thr[i].withbad); ev_ints("tin", (long long*)res_thr[i].cs_in, 0); ev_end();
+        ev_int("liveatjoin", liveatjoin[i]); ev_int("handoff", atomic_load(&handoff_ok[i])); ev_int("rootres", rootres[i]); ev_int("ncs", res_thr[i].ncs); ev_int("withbad", res_thr[i].withbad); ev_ints("tin", (long long*)res_thr[i].cs_in, 0); ev_end();
         for (int c = 0; c < res_thr[i].ncs; c++) { ev_begin("cs"); ev_int("t", i); ev_int("tin", res_thr[i].cs_in[c]); ev_int("tout", res_thr[i].cs_out[c]); ev_end(); total_cs++; }
       }
       ev_begin("summary"); ev_int("k", k); ev_int("plain", shared_plain); ev_int("sections", total_cs); ev_int("foreign", atomic_load(&foreign_retire));
